@@ -8,7 +8,7 @@ Development tool: not part of any registered check."""
 import os, sys, json, subprocess, shutil, tempfile, time
 
 VERIF = os.path.dirname(os.path.dirname(os.path.abspath(__file__)))
-REPO = "/repo"
+REPO = os.environ.get("SB_REPO", "/repo")
 
 
 def sh(cmd, cwd=None, timeout=3600, env=None):
@@ -76,7 +76,7 @@ def main():
     for f in os.listdir(src):
         if f in ("demo_bin",) or f.endswith(".o"):
             continue
-        if os.path.isfile(os.path.join(src, f)):
+        if os.path.isfile(os.path.join(src, f)) and os.path.abspath(src) != os.path.abspath(dst):
             shutil.copy(os.path.join(src, f), os.path.join(dst, f))
     old = {}
     if os.path.exists(os.path.join(dst, "meta.json")):
